@@ -6,6 +6,7 @@ import (
 	"sort"
 	"strings"
 	"sync"
+	"sync/atomic"
 	"time"
 
 	"verifharness/core"
@@ -25,8 +26,9 @@ type Case struct {
 	Stop        uint64   `json:"stop"`
 	Final       int64    `json:"final"`
 	Workers     int      `json:"workers"`
-	Cache       string   `json:"cache"`                  // empty | complete | subset:<mask>
-	Cap         int      `json:"cap"`                    // multiplicity cap of idempotent messages in the state key (0 = exact)
+	Cache       string   `json:"cache"` // empty | complete | subset:<mask>
+	Cap         int      `json:"cap"`   // multiplicity cap of idempotent messages in the state key (0 = exact)
+	extra       bool     // added by the thorough tier: explored after everything the quick tier explores
 	PartialWins bool     `json:"partial_wins,omitempty"` // squasher load race: the partial wins although the full snapshot exists
 	Path        []string `json:"path,omitempty"`         // artefact: the event path to replay
 }
@@ -314,7 +316,9 @@ func Run(ctx *core.Ctx) int {
 		}
 		cases = keep
 	}
+	nQuick := 0
 	if ctx.Thorough() {
+		nQuick = len(cases)
 		w123 := []int{1, 2, 3}
 		add("twostages-0-0-0", 2, true, 1, 6, 6, w123, ec)                       // 2 store stages x 3 segments
 		add("twostages-1-2-3", 2, true, 3, 8, 8, w123, ec)                       // different initial blocks
@@ -324,23 +328,40 @@ func Run(ctx *core.Ctx) int {
 		for mask := uint64(1); mask < 1<<7; mask++ {
 			add("storemap-0-0", 2, true, 1, 4, 4, []int{2}, []string{fmt.Sprintf("subset:%d", mask)})
 		}
-		budget = 25 * time.Minute
-		// the exact multiset (no coalescing) and the other outcome of the squasher's load race, on the quick grids
+		budget = 100 * time.Minute
+		// the exact multiset (no coalescing) on the quick grids, and the other outcome of the squasher's load race where
+		// the cache holds both a partial and a full snapshot for some segment (it cannot matter on an empty cache)
 		n := len(cases)
 		for i := 0; i < n; i++ {
 			c := cases[i]
 			if strings.HasPrefix(c.Cache, "subset:") {
-				continue
-			}
-			if c.Workers <= 2 && c.Stop <= 9 && c.Cap != 0 {
-				e := c
-				e.Cap = 0
-				cases = append(cases, e)
 				pw := c
 				pw.PartialWins = true
 				cases = append(cases, pw)
+				continue
+			}
+			if c.Workers <= 2 && c.Stop <= 6 && c.Cap != 0 {
+				e := c
+				e.Cap = 0
+				cases = append(cases, e)
 			}
 		}
+		for i := nQuick; i < len(cases); i++ {
+			cases[i].extra = true
+		}
+		// smallest first, so that a search that exhausts its share of the budget does not starve the others
+		ex := cases[nQuick:]
+		rank := func(c Case) int {
+			r := int(c.Stop-c.Start)*10 + c.Workers*3
+			if c.Cap == 0 {
+				r += 25
+			}
+			if c.Cache != "empty" {
+				r -= 20
+			}
+			return r
+		}
+		sort.SliceStable(ex, func(a, b int) bool { return rank(ex[a]) < rank(ex[b]) })
 	}
 	add("storemap-1-3", 2, true, 3, 6, 6, w12, []string{"empty"}) // the first segment of the map stage still depends on the store's earlier segment
 	// the cache a crash leaves between job completion and merges: partial store files only
@@ -355,6 +376,7 @@ func Run(ctx *core.Ctx) int {
 		var c Case
 		fmt.Sscan(spec, &c.Prog, &c.Seg, &c.Prod, &c.Start, &c.Stop, &c.Final, &c.Workers, &c.Cache)
 		c.Cap = capDefault
+		_, c.PartialWins = ctx.Args["partial-wins"]
 		cases = []Case{c}
 	}
 	// every cache state of a C07 universe (files of a complete run + partials of jobs run alone)
@@ -363,15 +385,17 @@ func Run(ctx *core.Ctx) int {
 		seg, start, stop uint64
 		final            int64
 	}
-	sweeps := []sweep{{"storemap-0-0", 5, 6, 12, 10}}
+	// samestage: two stores in one stage - the only shape in which a stage is left to merge while one of its stores
+	// already has the full snapshot, i.e. in which the squasher's partial-vs-full load race is actually run (both outcomes)
+	sweeps := []sweep{{"storemap-0-0", 5, 6, 12, 10}, {"samestage-1-7-3", 4, 9, 11, -1}}
 	if ctx.Thorough() {
-		sweeps = append(sweeps, sweep{"twostages-0-0-0", 5, 2, 6, 5}, sweep{"index", 4, 5, 9, 8}, sweep{"samestage-1-7-3", 4, 9, 11, -1})
+		sweeps = append(sweeps, sweep{"twostages-0-0-0", 5, 2, 6, 5}, sweep{"index", 4, 5, 9, 8})
 	}
 	var small []Case
 	if ctx.Args["case"] != "" || ctx.Args["only"] != "" {
 		sweeps = nil
 	}
-	for _, sw := range sweeps {
+	for si, sw := range sweeps {
 		prod := sw.prog != "samestage-1-7-3"
 		names, _, err := c07.Universe(c07.Shape{Prog: sw.prog, Seg: sw.seg, Prod: prod, Start: sw.start, Stop: sw.stop, Final: sw.final})
 		if err != nil {
@@ -379,7 +403,10 @@ func Run(ctx *core.Ctx) int {
 			continue
 		}
 		for mask := uint64(0); mask < 1<<uint(len(names)); mask++ {
-			small = append(small, Case{Prog: sw.prog, Seg: sw.seg, Prod: prod, Start: sw.start, Stop: sw.stop, Final: sw.final, Workers: 2, Cache: fmt.Sprintf("c07mask:%d", mask), Cap: capDefault})
+			small = append(small, Case{Prog: sw.prog, Seg: sw.seg, Prod: prod, Start: sw.start, Stop: sw.stop, Final: sw.final, Workers: 2, Cache: fmt.Sprintf("c07mask:%d", mask), Cap: capDefault, extra: si > 1})
+			if ctx.Thorough() || si == 1 {
+				small = append(small, Case{Prog: sw.prog, Seg: sw.seg, Prod: prod, Start: sw.start, Stop: sw.stop, Final: sw.final, Workers: 2, Cache: fmt.Sprintf("c07mask:%d", mask), Cap: capDefault, extra: si != 1, PartialWins: true})
+			}
 		}
 	}
 	deadline := time.Now().Add(budget)
@@ -417,37 +444,61 @@ func Run(ctx *core.Ctx) int {
 			ctx.Violation(o.fail, cc, int64(len(o.res.Path)))
 		}
 	}
-	for _, c := range cases {
-		remaining := time.Until(deadline)
-		if remaining < 5*time.Second {
-			allExhaustive = false
-			perCfg[c.String()] = "not run (budget)"
-			continue
+	perConfigCap := 15 * time.Minute
+	runCases := func(extra bool) {
+		for _, c := range cases {
+			if c.extra != extra {
+				continue
+			}
+			remaining := time.Until(deadline)
+			if remaining < 5*time.Second {
+				allExhaustive = false
+				perCfg[c.String()] = "not run (budget)"
+				continue
+			}
+			if remaining > perConfigCap {
+				remaining = perConfigCap
+			}
+			account(c, explore(c, 0, remaining, 0), true)
 		}
-		account(c, explore(c, 0, remaining, 0), true)
 	}
 	// the cache-state sweeps are many small searches: 8 at a time, 2 workers each
-	sem := make(chan struct{}, 8)
-	var wg sync.WaitGroup
 	sweepStates := map[string]int{}
-	for _, c := range small {
-		if time.Until(deadline) < 5*time.Second {
-			allExhaustive = false
-			break
+	runSweeps := func(extra bool) {
+		sem := make(chan struct{}, 8)
+		var wg sync.WaitGroup
+		for _, c := range small {
+			if c.extra != extra {
+				continue
+			}
+			if time.Until(deadline) < 5*time.Second {
+				allExhaustive = false
+				amu.Lock()
+				perCfg[fmt.Sprintf("%s seg=%d [%d,%d): sweep", c.Prog, c.Seg, c.Start, c.Stop)] = "cut short (budget)"
+				amu.Unlock()
+				break
+			}
+			wg.Add(1)
+			sem <- struct{}{}
+			go func(c Case) {
+				defer wg.Done()
+				defer func() { <-sem }()
+				o := explore(c, 0, time.Until(deadline), 2)
+				account(c, o, false)
+				amu.Lock()
+				sweepStates[fmt.Sprintf("%s seg=%d [%d,%d)%s: all cache states of the C07 universe", c.Prog, c.Seg, c.Start, c.Stop, map[bool]string{true: " partial-wins", false: ""}[c.PartialWins])] += o.res.States
+				amu.Unlock()
+			}(c)
 		}
-		wg.Add(1)
-		sem <- struct{}{}
-		go func(c Case) {
-			defer wg.Done()
-			defer func() { <-sem }()
-			o := explore(c, 0, time.Until(deadline), 2)
-			account(c, o, false)
-			amu.Lock()
-			sweepStates[fmt.Sprintf("%s seg=%d [%d,%d): all cache states of the C07 universe", c.Prog, c.Seg, c.Start, c.Stop)] += o.res.States
-			amu.Unlock()
-		}(c)
+		wg.Wait()
 	}
-	wg.Wait()
+	// everything the quick tier explores comes first, then the thorough tier's additions
+	runCases(false)
+	runSweeps(false)
+	if ctx.Thorough() {
+		runCases(true)
+		runSweeps(true)
+	}
 	for k, v := range sweepStates {
 		perCfg[k] = fmt.Sprintf("states=%d (summed over the sweep)", v)
 	}
@@ -461,6 +512,7 @@ func Run(ctx *core.Ctx) int {
 	ctx.Cov["real_tier2_job_runs"] = realJobs
 	ctx.Cov["memoised_job_replays"] = hits
 	ctx.Cov["max_depth"] = maxDepth
+	ctx.Cov["squasher_load_races_decided"] = atomic.LoadInt64(&schedx.RacesDecided)
 	ctx.Cov["configurations"] = len(cases)
 	ctx.Cov["per_configuration"] = perCfg
 	ctx.Cov["evaluations"] = len(cases)
